@@ -81,6 +81,29 @@ Apply_Exp(D, u, act, args, st, allow, skip, dv) ==
                   IN  IF ~s.ok THEN AnyOutcome
                       ELSE [any |-> FALSE, err |-> lenient, vals |-> {s.st}]
 
+----------------------------------------------------------------------------
+(* ParseProblem: a = [D, tree].  A well-formed problem is returned with      *)
+(* exactly its objects, initial facts / fluent values and goals; anything    *)
+(* else is rejected with an error.                                           *)
+
+ProblemProj(P) ==
+  [name |-> P.name, objs |-> Range(P.objs), facts |-> P.init.facts, fl |-> P.init.fl,
+   glits |-> P.goal.lits, gcmps |-> P.goal.cmps]
+
+ProjEq(a, b) ==
+  /\ a.name = b.name /\ a.objs = b.objs /\ a.glits = b.glits /\ a.gcmps = b.gcmps
+  /\ StEq([facts |-> a.facts, fl |-> a.fl], [facts |-> b.facts, fl |-> b.fl])
+
+\* [accept : must the call return?, proj]
+ParseProblem_Exp(D, tree, dv) ==
+  LET P == ProblemOfTree(tree)
+  IN  [accept |-> WFProblemD(D, P, dv), proj |-> ProblemProj(P)]
+
+----------------------------------------------------------------------------
+(* Type queries on a parsed domain (C06) *)
+SubTypeOf(D, a, b) == SubType(ParentOf(D.typeDecl), a, b)
+TypeEdges(D) == {<<ParentOf(D.typeDecl)[n], n>> : n \in TypeNamesOf(D)}
+
 \* outcome comparison for states is up to StEq (rationals may arrive unnormalised)
 AdmitsState(exp, obs) ==
   \/ exp.any
